@@ -383,10 +383,10 @@ func ReplayTexts(ctx *core.Ctx, f *TextFamily, fullLen int) {
 		nPairs++
 		return true
 	})
-	ctx.Extra["replay_"+f.Name] = map[string]interface{}{
+	setExtra(ctx, "replay_"+f.Name, map[string]interface{}{
 		"texts": len(f.Order), "max_len": f.N, "alphabet": alphaNames(f), "full_matrix_up_to_len": fullLen,
 		"renders": renders, "pairs_not_applicable": skipped, "neighbour_pairs_used": nPairs, "min_renders_per_pair": minPair,
-	}
+	})
 }
 
 func alphaNames(f *TextFamily) []string {
@@ -414,8 +414,13 @@ func reportText(ctx *core.Ctx, tc *TextCase, exp *TextExp, l, r Neighbour) {
 			break
 		}
 		if l.Comment || r.Comment {
-			fam = "comment"
-			feature = "next-to-comment:" + ClassifyText(tc.Text, pinnedOf(exp, l, r), mid)
+			feature = ClassifyText(tc.Text, pinnedOf(exp, l, r), mid)
+			if strings.HasPrefix(feature, "ws:") {
+				// a whitespace decision next to a comment; damage to
+				// non-whitespace characters keeps the signature of family text
+				fam = "comment"
+				feature = "next-to-comment:" + feature
+			}
 		} else {
 			feature = ClassifyText(tc.Text, exp.Exact, mid)
 		}
